@@ -615,6 +615,25 @@ func (g *Gen) addUnmanaged(d *GConf) {
 			"ip local pool admin-pool 192.168.8.1-192.168.8.9 mask 255.255.255.0",
 			"group-policy AdminPolicy internal",
 			"group-policy AdminPolicy attributes\n vpn-filter value manual_acl\n address-pools value admin-pool")
+		// Left-over objects with generated names that hand-made
+		// configuration still uses, over more than one level.
+		if g.Rng.Intn(2) == 0 {
+			d.Groups = append(d.Groups, &GGroup{"kept_g-DRC-7", []string{"host 192.168.7.20"}})
+			d.ACLs = append(d.ACLs, &GACL{"kept_acl-DRC-7", []string{"permit ip host 192.168.7.21 any4",
+				"permit ip object-group kept_g-DRC-7 any4"}})
+			d.Extra = append(d.Extra,
+				"group-policy ManualSplit internal",
+				"group-policy ManualSplit attributes\n split-tunnel-network-list value kept_acl-DRC-7")
+		}
+		if g.Rng.Intn(2) == 0 {
+			d.ACLs = append(d.ACLs, &GACL{"keptfilter-DRC-3", []string{"permit ip any4 host 192.168.7.30"}})
+			d.Extra = append(d.Extra,
+				"ip local pool keptpool-DRC-3 192.168.8.32-192.168.8.63 mask 255.255.255.224",
+				"group-policy KeptPolicy-DRC-3 internal",
+				"group-policy KeptPolicy-DRC-3 attributes\n vpn-filter value keptfilter-DRC-3\n address-pools value keptpool-DRC-3",
+				"tunnel-group MANUAL type remote-access",
+				"tunnel-group MANUAL general-attributes\n default-group-policy KeptPolicy-DRC-3")
+		}
 		return
 	}
 	d.ACLs = append(d.ACLs, &GACL{"manual_acl", []string{"permit ip host 192.168.7.1 any", "deny ip any any"}})
